@@ -127,3 +127,267 @@ mod c03_store {
         );
     }
 }
+
+// C03: c03_vstore — the tables of the REAL `MaliciousDZKPValidator` (created through `ctx.dzkp_validator`), filled
+// through the real `DZKPUpgraded::push` from contexts narrowed to different gates, in a scripted order.
+//
+//   c03.vstore <rpb|max> <total|-> <op>;<op>;…
+//     op = gate:record:width:f0.….f6   push that segment from the context of that gate
+//        | v<record>                   ctx.validate_record(record), polled once (`ok`, `pend`, `err:<kind>`)
+//   response: `<v outcomes joined by , or -> | x:<first_batch>:<slot> / <slot> … | drop=<ok|unsafe>`
+//     slot = `N` (validated out of order) or `f=<first_record|-> n=<multiplications> e=<0|1> <gate>=<blocks>…`
+//     (the block dump of c03_store). A panic of a push or of validate_record is the whole response.
+// Nothing is ever sent: only empty batches are completed (`Batch::validate` returns at once for them), so one
+// helper's context is enough.
+mod c03_vstore {
+    use std::{
+        future::Future,
+        pin::Pin,
+        task::{Context as TaskCtx, Poll},
+    };
+
+    use bitvec::prelude::{BitVec, Lsb0};
+
+    use super::super::{Batch, DZKPValidator, Segment, SegmentEntry};
+    use crate::{
+        error::Error,
+        ipa_verif::proto::*,
+        protocol::{
+            RecordId,
+            context::{Context, DZKPContext, MaliciousContext, TEST_DZKP_STEPS, UpgradableContext},
+        },
+        sharding::NotSharded,
+        test_fixture::TestWorld,
+    };
+
+    type Fut<'a> = Pin<Box<dyn Future<Output = Result<(), Error>> + Send + 'a>>;
+
+    fn dump_batch(b: &Batch) -> String {
+        let mut out = format!(
+            "f={} n={} e={}",
+            b.first_record.map_or("-".to_string(), |r| usize::from(r).to_string()),
+            b.get_number_of_multiplications(),
+            u8::from(b.is_empty())
+        );
+        for (g, store) in &b.inner {
+            let name = g.as_ref().rsplit('/').next().unwrap().to_string();
+            let blocks: Vec<String> = store
+                .vec
+                .iter()
+                .map(|b| {
+                    [&b.x_left, &b.x_right, &b.y_left, &b.y_right, &b.prss_left, &b.prss_right, &b.z_right]
+                        .iter()
+                        .map(|a| hex(a.as_raw_slice()))
+                        .collect::<Vec<_>>()
+                        .join(".")
+                })
+                .collect();
+            out.push_str(&format!(" {name}={}", if blocks.is_empty() { "-".to_string() } else { blocks.join("|") }));
+        }
+        out
+    }
+
+    fn exec(base: MaliciousContext<'_, NotSharded>, req: &str) -> String {
+        let t: Vec<&str> = req.split(' ').collect();
+        let rpb: usize = if t[1] == "max" { usize::MAX } else { t[1].parse().unwrap() };
+        let base = if t[2] == "-" { base } else { base.set_total_records(t[2].parse::<usize>().unwrap()) };
+        let validator = base.dzkp_validator(TEST_DZKP_STEPS, rpb);
+        let ctx = validator.context();
+        let mut futs: Vec<Fut<'_>> = vec![];
+        let mut outs: Vec<String> = vec![];
+        for op in t[3].split(';') {
+            if let Some(r) = op.strip_prefix('v') {
+                let mut f: Fut<'_> = ctx.validate_record(RecordId::from(r.parse::<usize>().unwrap()));
+                let mut cx = TaskCtx::from_waker(futures::task::noop_waker_ref());
+                match f.as_mut().poll(&mut cx) {
+                    Poll::Pending => {
+                        futs.push(f);
+                        outs.push("pend".into());
+                    }
+                    Poll::Ready(Ok(())) => outs.push("ok".into()),
+                    Poll::Ready(Err(Error::MissingTotalRecords(_))) => outs.push("err:missing-total".into()),
+                    Poll::Ready(Err(Error::RecordIdOutOfRange { .. })) => outs.push("err:out-of-range".into()),
+                    Poll::Ready(Err(e)) => outs.push(format!("err:{}", canon(&format!("{e:?}")).replace(' ', "_"))),
+                }
+                continue;
+            }
+            let f: Vec<&str> = op.split(':').collect();
+            let record: usize = f[1].parse().unwrap();
+            let width: usize = f[2].parse().unwrap();
+            let bvs: Vec<BitVec<u8, Lsb0>> = f[3]
+                .split('.')
+                .map(|h| {
+                    let mut bv = BitVec::<u8, Lsb0>::from_vec(unhex(h));
+                    bv.truncate(width);
+                    assert_eq!(bv.len(), width, "harness: not enough bytes for the width");
+                    bv
+                })
+                .collect();
+            let e = |i: usize| SegmentEntry::from_bitslice(&bvs[i]);
+            let segment = Segment::from_entries(e(0), e(1), e(2), e(3), e(4), e(5), e(6));
+            ctx.narrow(f[0]).push(RecordId::from(record), segment);
+        }
+        let state = validator
+            .inner_ref
+            .as_ref()
+            .unwrap()
+            .batcher
+            .lock()
+            .unwrap()
+            .ipa_verif_state(dump_batch);
+        // `x:<first_batch>:<slot>/<slot>…`, slot = `N` | `<payload>.<pending_count>.<bitmap len>.<set bits>`:
+        // keep the payload only (the pending bookkeeping belongs to C16)
+        let mut it = state.splitn(3, ':');
+        let (x, first_batch, slots) = (it.next().unwrap(), it.next().unwrap(), it.next().unwrap());
+        let slots: Vec<String> = slots
+            .split('/')
+            .map(|s| if s == "N" || s == "-" { s.to_string() } else { s.rsplitn(4, '.').last().unwrap().to_string() })
+            .collect();
+        drop(futs);
+        let dropped = match guarded(move || drop(validator)) {
+            Ok(()) => "ok".to_string(),
+            Err(p) if p.contains("ContextUnsafe") => "unsafe".to_string(),
+            Err(p) => p,
+        };
+        format!(
+            "{} | {x}:{first_batch}:{} | drop={dropped}",
+            if outs.is_empty() { "-".to_string() } else { outs.join(",") },
+            slots.join(" / ")
+        )
+    }
+
+    fn seg(rng: &mut Rng, width: usize) -> String {
+        let nbytes = width.div_ceil(8);
+        (0..7)
+            .map(|_| {
+                let mut b = rng.bytes(nbytes);
+                if width % 8 != 0 {
+                    let last = nbytes - 1;
+                    b[last] &= (1u8 << (width % 8)) - 1;
+                }
+                // never all-zero, so that a misplaced or lost segment shows
+                b[0] |= 1;
+                hex(&b)
+            })
+            .collect::<Vec<_>>()
+            .join(".")
+    }
+
+    const GATES: [&str; 3] = ["a", "m", "zz"];
+
+    /// pushes of `records` for `ngates` gates; `order(batch-local list)` decides the order per gate
+    fn pushes(rng: &mut Rng, records: &[usize], ngates: usize, widths: &[usize]) -> Vec<String> {
+        let mut out = vec![];
+        for g in 0..ngates {
+            for &r in records {
+                out.push(format!("{}:{r}:{}:{}", GATES[g], widths[g], seg(rng, widths[g])));
+            }
+        }
+        out
+    }
+
+    fn generate(rng: &mut Rng, thorough: bool) -> Vec<String> {
+        let mut out = vec![];
+        let width_sets: [[usize; 3]; 6] = [[1, 8, 256], [3, 64, 512], [8, 3, 20], [64, 256, 1], [256, 1, 33], [512, 5, 128]];
+        for (k, ws) in width_sets.iter().enumerate() {
+            for &rpb in &[2usize, 4, 8] {
+                let ngates = 1 + (k + rpb) % 3;
+                // batch 0 only, backwards: the smallest case in which the anchor matters
+                let mut recs: Vec<usize> = (0..rpb).rev().collect();
+                out.push(format!("c03.vstore {rpb} - {}", pushes(rng, &recs, ngates, ws).join(";")));
+                // second record first, then in order (what a racing multiplication produces)
+                recs = (0..rpb).collect();
+                recs.swap(0, 1);
+                out.push(format!("c03.vstore {rpb} {} {}", 2 * rpb, pushes(rng, &recs, ngates, ws).join(";")));
+                // three batches, the last one partial; every gate and batch in its own random order
+                let total = 2 * rpb + 1 + rng.usize_below(rpb - 1);
+                let mut ops = vec![];
+                for b in 0..3 {
+                    for g in 0..ngates {
+                        let mut recs: Vec<usize> = (b * rpb..((b + 1) * rpb).min(total)).collect();
+                        rng.shuffle(&mut recs);
+                        for r in recs {
+                            ops.push(format!("{}:{r}:{}:{}", GATES[g], ws[g], seg(rng, ws[g])));
+                        }
+                    }
+                }
+                out.push(format!("c03.vstore {rpb} {total} {}", ops.join(";")));
+                // the same records, batches and gates interleaved by one global shuffle
+                let mut ops = pushes(rng, &(0..total).collect::<Vec<_>>(), ngates, ws);
+                rng.shuffle(&mut ops);
+                out.push(format!("c03.vstore {rpb} {total} {}", ops.join(";")));
+                // later batches first (batch 2, then 1, then 0), each backwards
+                let mut ops = vec![];
+                for b in (0..3).rev() {
+                    let recs: Vec<usize> = (b * rpb..((b + 1) * rpb).min(total)).rev().collect();
+                    ops.extend(pushes(rng, &recs, ngates, ws));
+                }
+                out.push(format!("c03.vstore {rpb} {total} {}", ops.join(";")));
+                // batch 0 validated while empty (the deque then starts at batch 1): batch 1 and 2 out of order
+                let mut ops: Vec<String> = (0..rpb).map(|r| format!("v{r}")).collect();
+                let mut later = pushes(rng, &(rpb..total).collect::<Vec<_>>(), ngates, ws);
+                rng.shuffle(&mut later);
+                ops.extend(later);
+                out.push(format!("c03.vstore {rpb} {total} {}", ops.join(";")));
+                // batch 1 validated while empty BEFORE batch 0 (slot taken out of order), then batch 2 and 0 backwards
+                let mut ops: Vec<String> = (rpb..2 * rpb).map(|r| format!("v{r}")).collect();
+                ops.extend(pushes(rng, &(2 * rpb..total).rev().collect::<Vec<_>>(), ngates, ws));
+                ops.extend(pushes(rng, &(0..rpb).rev().collect::<Vec<_>>(), ngates, ws));
+                out.push(format!("c03.vstore {rpb} {total} {}", ops.join(";")));
+            }
+            // single-shot validators (no explicit anchor): lowest record first, the rest shuffled
+            let n = 5 + k;
+            let mut recs: Vec<usize> = (1..n).collect();
+            rng.shuffle(&mut recs);
+            recs.insert(0, 0);
+            out.push(format!("c03.vstore max {n} {}", pushes(rng, &recs, 2, ws).join(";")));
+            // … and anchored at a record other than 0 (the aggregation protocol's later chunks)
+            let recs2: Vec<usize> = recs.iter().map(|r| r + 7).collect();
+            out.push(format!("c03.vstore max - {}", pushes(rng, &recs2, 1, ws).join(";")));
+        }
+        // documented limits (the model mirrors them, the oracle does not judge them):
+        // single-shot validator, a record below the first pushed one; a push into a batch that was validated;
+        // a record beyond the batch of a single-shot validator anchored implicitly
+        out.push(format!("c03.vstore max 4 {}", pushes(rng, &[1, 0], 1, &[8, 8, 8]).join(";")));
+        out.push(format!("c03.vstore 2 4 v0;v1;{}", pushes(rng, &[1], 1, &[8, 8, 8]).join(";")));
+        out.push(format!("c03.vstore 2 4 v0;v0"));
+        out.push(format!("c03.vstore 2 - v0"));
+        out.push(format!("c03.vstore 2 4 v4"));
+        if thorough {
+            for _ in 0..150 {
+                let ws = *rng.pick(&width_sets);
+                let rpb = *rng.pick(&[2usize, 4, 8, 16]);
+                let nb = 1 + rng.usize_below(4);
+                let total = (nb - 1) * rpb + 1 + rng.usize_below(rpb);
+                let ngates = 1 + rng.usize_below(3);
+                let mut ops = pushes(rng, &(0..total).collect::<Vec<_>>(), ngates, &ws);
+                rng.shuffle(&mut ops);
+                out.push(format!("c03.vstore {rpb} {total} {}", ops.join(";")));
+            }
+        }
+        out
+    }
+
+    #[test]
+    fn verif_c03_vstore() {
+        // one runtime and one TestWorld for the whole suite; every request gets its own gate
+        let rt = tokio::runtime::Builder::new_current_thread().enable_all().build().unwrap();
+        let _guard = rt.enter();
+        let world = TestWorld::<NotSharded>::default();
+        let counter = std::cell::Cell::new(0usize);
+        let roots = world.malicious_contexts();
+        run_suite("c03_vstore", generate, |req| {
+            let k = counter.get();
+            counter.set(k + 1);
+            let step = format!("c03v{k}");
+            exec(roots[0].narrow(&step), req)
+        });
+    }
+}
+
+// C02 (b14): called by `Batch::push` (guarded call in dzkp_validator.rs): the gate whose multiplication intermediates
+// are being recorded in a DZKP batch. Forwarded to the registry of harness/c02.rs, which only keeps gates of worlds it
+// started itself (run gate `protocol/c02w<k>`).
+pub fn c02_note_push(gate: &crate::protocol::Gate) {
+    crate::ipa_verif::c02::note_push(gate.as_ref());
+}
